@@ -157,6 +157,22 @@ func (e *Engine) unfoldInstance(st *State, fn *ssa.Function, args []Value) *smt.
 		b := smt.Select(s.Arr, nk)
 		stepped := e.callSpec(st, step, []Value{cur, IntV{b}})
 		cs = append(cs, smt.Implies(smt.Le(smt.IntC(0), n), e.valueEq(next, stepped, true)))
+		// remember the unfolding as a rewrite (valid where n >= 0, which every use site guarantees through its bounds)
+		if st != nil && !st.pure && !e.noRewrite {
+			if k == 0 && e.cur != nil && e.pure == 0 {
+				e.addOblig(st, "use-guard", "unfold index non-negative", []string{"SAFETY"}, smt.Le(smt.IntC(0), n), 0)
+			}
+			if st.rw == nil {
+				st.rw = map[*smt.Term]*smt.Term{}
+			}
+			rt := fn.Signature.Results().At(0).Type()
+			nl, sl := toLeaves(rt, next), toLeaves(rt, stepped)
+			for i := range nl {
+				if nl[i] != sl[i] && nl[i].Op == "app" {
+					st.rw[nl[i]] = sl[i]
+				}
+			}
+		}
 		cur = stepped
 	}
 	return smt.And(cs...)
